@@ -82,6 +82,54 @@ fn arg_len(rng: &mut Rng, ty: &Ty, cur: usize, over_ok: bool) -> usize {
     }
 }
 
+
+/// A vector of type `ty` produced by a short history on the real implementation (reserve / shrink, `!`, shifts,
+/// logic and arithmetic with random operands, resizes, rotations, splits …). Every step is itself an emitted,
+/// checked case, so an operation that leaves hidden state behind is reported by whichever property check
+/// happens to build its operands through it — the properties quantify over vectors "produced by any history".
+pub fn produced(rng: &mut Rng, ty: &Ty, maxlen: usize, emit: Emit) -> String {
+    let mut cur = gen_vec(rng, ty, maxlen);
+    const FORMS: [&str; 6] = ["vv", "vr", "rv", "rr", "av", "ar"];
+    for _ in 0..(1 + rng.below(3)) {
+        let len = tok_len(&cur);
+        let l = match rng.below(13) {
+            0 | 1 if ty.kind != Kind::F => line("reserve", &[&cur, &s(1 + rng.below(200))]),
+            2 if ty.kind != Kind::F => line("shrink", &[&cur]),
+            3 | 4 => line("not", &[&cur, if rng.chance(1, 2) { "v" } else { "r" }]),
+            5 => {
+                let k = match rng.below(3) { 0 => 1, 1 => ty.w, _ => rng.below(len + 2) };
+                line(if rng.chance(1, 2) { "shl" } else { "shr" }, &[&cur, &format!("u32:{:x}", k), *rng.pick(&FORMS)])
+            }
+            6 | 7 => {
+                let r = if rng.chance(1, 4) { gen_uint(rng) } else {
+                    let rt = *rng.pick(TYPES);
+                    gen_vec(rng, &rt, maxlen)
+                };
+                line(*rng.pick(&["or", "xor", "add", "sub", "and", "mul"]), &[&cur, &r, "ar"])
+            }
+            8 => {
+                let lim = ty.cap().unwrap_or(maxlen + 70);
+                line("resize", &[&cur, &s(rng.below(lim + 1)), b(rng.chance(1, 2))])
+            }
+            9 => line("truncate", &[&cur, &s(rng.below(len + 1))]),
+            10 if len > 0 => line("rotl", &[&cur, &s(rng.below(len + 1))]),
+            11 => line("split_off", &[&cur, &s(rng.below(len + 1))]),
+            _ => line(if rng.chance(1, 2) { "pop" } else { "shr_in" }, &[&cur, "1"][..if rng.chance(1, 2) { 1 } else { 2 }]),
+        };
+        // `pop` takes no bit argument, `shr_in` needs one: normalise
+        let l = if l.starts_with("pop ") { line("pop", &[&cur]) } else if l.starts_with("shr_in ") { line("shr_in", &[&cur, "1"]) } else { l };
+        let out = emit(l);
+        if let Some(n) = out_vec(&out) {
+            cur = n;
+        }
+    }
+    cur
+}
+/// canonical random vector, or (one time in three) one produced by a short history
+pub fn any_vec(rng: &mut Rng, ty: &Ty, maxlen: usize, emit: Emit) -> String {
+    if rng.chance(1, 3) { produced(rng, ty, maxlen, emit) } else { gen_vec(rng, ty, maxlen) }
+}
+
 // ---------------------------------------------------------------------------------------------------
 fn edit_step(rng: &mut Rng, ty: &Ty, cur: &str, over_ok: bool) -> String {
     let len = tok_len(cur);
@@ -271,7 +319,7 @@ fn gen_c05(rng: &mut Rng, tier: &str, emit: Emit) {
     }
     for _ in 0..scale(tier, 6000) {
         let ty = *rng.pick(TYPES);
-        let v = gen_vec(rng, &ty, MAXD);
+        let v = any_vec(rng, &ty, MAXD, emit);
         emit(line(if rng.chance(1, 2) { "shl_in" } else { "shr_in" }, &[&v, b(rng.chance(1, 2))]));
     }
 }
@@ -322,7 +370,7 @@ fn gen_c08(rng: &mut Rng, tier: &str, emit: Emit) {
     }
     for _ in 0..scale(tier, 5000) {
         let ty = *rng.pick(TYPES);
-        let v = gen_vec(rng, &ty, MAXD);
+        let v = any_vec(rng, &ty, MAXD, emit);
         let len = tok_len(&v);
         let pt = |rng: &mut Rng| -> usize {
             match rng.below(6) {
@@ -400,7 +448,8 @@ fn gen_c16(rng: &mut Rng, tier: &str, emit: Emit) {
     }
     for _ in 0..scale(tier, 3000) {
         let ty = *rng.pick(TYPES);
-        emit(line("counts", &[&gen_vec(rng, &ty, MAXD)]));
+        let v = any_vec(rng, &ty, MAXD, emit);
+        emit(line("counts", &[&v]));
     }
 }
 
@@ -591,7 +640,8 @@ fn gen_c11(rng: &mut Rng, tier: &str, emit: Emit) {
         }
         for _ in 0..scale(tier, 200) {
             let w = ["8", "16", "32", "64", "128", "us"][rng.below(6)];
-            emit(line("to_uint", &[&gen_vec(rng, ty, MAXD), w]));
+            let v = any_vec(rng, ty, MAXD, emit);
+            emit(line("to_uint", &[&v, w]));
         }
     }
     if tier == "thorough" {
@@ -614,7 +664,8 @@ fn gen_c12(rng: &mut Rng, tier: &str, emit: Emit) {
                 emit(line("convert", &[tt.tag, &gen_vec_len(rng, st, len)]));
             }
             for _ in 0..scale(tier, 10) {
-                emit(line("convert", &[tt.tag, &gen_vec(rng, st, MAXD)]));
+                let v = any_vec(rng, st, MAXD, emit);
+                emit(line("convert", &[tt.tag, &v]));
             }
         }
     }
@@ -827,6 +878,54 @@ fn gen_c02(rng: &mut Rng, tier: &str, emit: Emit) {
     }
 }
 
+
+/// every family also observes / operates on vectors that were produced by short histories
+fn with_produced(rng: &mut Rng, tier: &str, fam: &str, emit: Emit) {
+    let n = scale(tier, 400);
+    for _ in 0..n {
+        let ty = *rng.pick(TYPES);
+        let v = produced(rng, &ty, 200, emit);
+        let len = tok_len(&v);
+        match fam {
+            "C09" => {
+                let rt = *rng.pick(TYPES);
+                let r = if rng.chance(1, 2) { produced(rng, &rt, 200, emit) } else { gen_vec(rng, &rt, 200) };
+                emit(line("cmpall", &[&v, &r]));
+                emit(line("cmpall", &[&r, &v]));
+            }
+            "C10" => { emit(line("hash", &[&v])); }
+            "C13" => { emit(line("to_vec", &[&v, if rng.chance(1, 2) { "big" } else { "little" }])); }
+            "C14" => { emit(line("fmt", &[&v, ["b", "o", "x", "X", "d"][rng.below(5)]])); }
+            "C06" => { emit(line(if rng.chance(1, 2) { "rotl" } else { "rotr" }, &[&v, &s(rng.below(len + 1))])); }
+            "C16" => { emit(line("counts", &[&v])); }
+            "C17" => { emit(line("iter", &[&v, b(rng.chance(1, 3)), "next,back,nth:1,hint,nthb:0,last"])); }
+            "C11" => { emit(line("to_uint", &[&v, ["8", "16", "32", "64", "128", "us"][rng.below(6)]])); }
+            "C12" => { let tt = *rng.pick(TYPES); emit(line("convert", &[tt.tag, &v])); }
+            "C02" => {
+                let rt = *rng.pick(TYPES);
+                let r = produced(rng, &rt, 120, emit);
+                if len <= 200 { emit(line("divrem", &[&v, &r])); }
+            }
+            "C08" => {
+                let st = rng.below(len + 1);
+                emit(line("copy_range", &[&v, &s(st), &s(st + rng.below(len - st + 1))]));
+                emit(line("split_off", &[&v, &s(rng.below(len + 1))]));
+            }
+            "C07" | "C19" | "C18" | "C03" => { let l = edit_step(rng, &ty, &v, fam == "C19"); emit(l); }
+            "C05" => { emit(line("shl_in", &[&v, b(rng.chance(1, 2))])); }
+            "C15" => {
+                // format → parse round trip on the implementation's own output
+                let k = ["b", "x", "X"][rng.below(3)];
+                let out = emit(line("fmt", &[&v, k]));
+                if let Some(tok) = out.strip_prefix("ok ") {
+                    emit(line(if k == "b" { "from_binary" } else { "from_hex" }, &[if rng.chance(1, 2) { "D" } else { "A" }, tok]));
+                }
+            }
+            _ => {}
+        }
+    }
+}
+
 pub fn generate(fam: &str, seed: u64, tier: &str, emit: Emit) {
     let mut rng = Rng::new(seed ^ fam.bytes().fold(0u64, |a, c| a.wrapping_mul(131).wrapping_add(c as u64)));
     let rng = &mut rng;
@@ -848,6 +947,8 @@ pub fn generate(fam: &str, seed: u64, tier: &str, emit: Emit) {
         "C17" => gen_c17(rng, tier, emit),
         "C18" => gen_c18(rng, tier, emit),
         "C19" => gen_c19(rng, tier, emit),
+        f if f.starts_with("O") => { super::gen_ops::generate(&f[1..], seed, tier, emit); return; }
         _ => panic!("unknown family {fam}"),
     }
+    with_produced(rng, tier, fam, emit);
 }
